@@ -23,7 +23,7 @@ ASSUMPTIONS = [
 
 
 def bounds(tier):
-    return dict(triples=[t["name"] for t in kitgen.TRIPLES], fills=[0, 1] if tier == "quick" else [0, 1, 2],
+    return dict(containers=gen.CONTAINERS, triples=[t["name"] for t in kitgen.TRIPLES], fills=[0, 1] if tier == "quick" else [0, 1, 2],
                 placeholder_lengths=[0, 1, 7] if tier == "quick" else [0, 1, 2, 7, 15], chain=[1, 2, 3] if tier == "quick" else [1, 2, 3, 4],
                 overhang_word_sets=1 if tier == "quick" else 3,
                 vector_rotations="all n" if tier == "thorough" else "all n for fill 0 / placeholder 7, stride 5 otherwise",
